@@ -293,6 +293,56 @@ func TestC10Converged(t *testing.T) {
 			if d >= 3 {
 				c.Class("pair-distance>=3")
 			}
+			// Last of all (the mesh is no longer the converged one afterwards): the
+			// requester loses the link it has just used for B. Its table withdraws
+			// every route over that neighbour at once; if it still holds a route to
+			// B over a neighbour whose link is up, the next frame for B leaves over
+			// a link that is up - it is not sent into the lost link or dropped.
+			if p == pairs-1 && c.Chance("link-lost", 1, 3) {
+				rte, _ := A.Rtr.Table().LookupNearestRoute(B.IP())
+				if rte == nil || rte.DstIP != B.IP() {
+					continue
+				}
+				X := ms.vn.ByIP[rte.NextHop]
+				if X == nil || len(A.Links) < 2 || len(X.Links) < 2 {
+					continue
+				}
+				la, lx := A.Links[X.IP()], X.Links[A.IP()]
+				if la == nil || lx == nil {
+					continue
+				}
+				la.Closing, lx.Closing = true, true
+				A.Peer.RemoveLink(la)
+				X.Peer.RemoveLink(lx)
+				delete(A.Links, X.IP())
+				delete(X.Links, A.IP())
+				c.Class("requester-lost-the-link-it-used")
+				rte2, _ := A.Rtr.Table().LookupNearestRoute(B.IP())
+				if rte2 == nil || rte2.DstIP != B.IP() {
+					c.Class("requester-lost-the-link-it-used/no-other-route")
+					continue
+				}
+				if rte2.NextHop == X.IP() {
+					c.Fatalf("n%d lost its link to n%d, its table still routes n%d over it", a, ms.idx[X.IP()], b)
+				}
+				if l := A.Links[rte2.NextHop]; l == nil || l.Closing {
+					continue
+				}
+				f, err := A.Builder.NewFrameV1(A.IP(), B.IP(), frame.NetworkTraffic, nil, c.Bytes("link-lost.payload", 40), nil)
+				if err != nil {
+					c.Fatalf("frame: %v", err)
+				}
+				f.SetTTL(32)
+				ms.vn.Queue = nil
+				if err := A.Rtr.RouteFrame(f); err != nil {
+					c.Fatalf("n%d lost its link to n%d and holds another route to n%d (over n%d, link up), but cannot route a frame to n%d: %v", a, ms.idx[X.IP()], b, ms.idx[rte2.NextHop], b, err)
+				}
+				if len(ms.vn.Queue) != 1 || ms.vn.Queue[0].From != A || A.Links[ms.vn.Queue[0].To.IP()] == nil {
+					c.Fatalf("n%d lost its link to n%d and holds another route to n%d: the next frame for n%d did not leave over a link that is up (%d frames in flight)", a, ms.idx[X.IP()], b, b, len(ms.vn.Queue))
+				}
+				ms.vn.Queue = nil
+				c.Class("requester-lost-the-link-it-used/frame-left-over-another-link")
+			}
 		}
 	})
 }
